@@ -13,7 +13,7 @@ def rewrite_soll(expr, word):
 
 
 def run(ctx):
-    built = prepare(ctx, ["Gen_logic", "Gen_ranges", "Gen_valmaps", "Gen_enums"], ["Props/C14.vo", "Corr/Validate.vo"])
+    built = prepare(ctx, ["Gen_logic", "Gen_ranges", "Gen_valmaps", "Gen_enums", "Gen_status"], ["Props/C14.vo", "Corr/Validate.vo", "Proofs/C13_gen.vo"])
     # SOLL-heavy trees: bias the modal marks
     saved = list(valcorr.MM)
     valcorr.MM[:] = ["Soll", "S", "soll", "s", "Muss", "M", "Kann", "k", "SOLL"]
